@@ -249,8 +249,10 @@ func (c *fnCtx) modItemComps(ci calleeInfo, item string) []string {
 		return nil
 	}
 	if strings.HasPrefix(item, "$mem:") || strings.HasPrefix(item, "$ghost:") {
-		if strings.HasPrefix(item, "$ghost:frz") {
-			c.g.compKT[item] = compKT{KBool, nil}
+		if strings.HasPrefix(item, "$ghost:") {
+			if _, known := c.g.compKT[item]; !known {
+				c.g.compKT[item] = compKT{KBool, nil} // literal ghost components are Bool-valued sets
+			}
 		}
 		return []string{item}
 	}
